@@ -403,6 +403,13 @@ class Ref:
             return self.s_round(op, x, d, TRUE)
         if op == "nvl":
             return self.n_BinOp(type("B", (), dict(op="nvl", left=node.children[0], right=node.params[0]))())
+        if op == "cast":
+            src = node.children[0]
+            tgt = node.children[1]
+            tname = {"Integer": "Integer", "Number": "Number", "String": "String", "Boolean": "Boolean"}.get(getattr(tgt, "__name__", ""), None)
+            if type(src).__name__ == "Constant" and src.value is None and tname:
+                return NULL(KIND_OF_TYPE[tname]), tname
+            raise Unsupported("oracle: cast")
         raise Unsupported("oracle ParamOp %s" % op)
 
     def n_MulOp(self, node):
@@ -515,6 +522,30 @@ class Ref:
                 ty = "Number"
             comps.append((m, ty, "Measure"))
         return RDS(comps, rows)
+
+    def n_Case(self, node):
+        conds = [self.ev(c.condition) for c in node.cases]
+        thens = [self.ev(c.thenOp) for c in node.cases]
+        els = self.ev(node.elseOp)
+        if any(isinstance(x, RDS) for x in conds + thens + [els]):
+            raise Unsupported("oracle: dataset-level case")
+        # exactly one TRUE condition selects its branch; none -> else.  Overlapping TRUE conditions are outside
+        # the oracle (first-match vs last-match could not be established offline)
+        trues = [z3.And(z3.Not(as_kind(cv, "bool").null), as_kind(cv, "bool").val) for cv, _ in conds]
+        g = self.row[1].present if self.row is not None else TRUE
+        for i_ in range(len(trues)):
+            for j_ in range(i_ + 1, len(trues)):
+                self.domain.append(z3.Implies(g, z3.Not(z3.And(trues[i_], trues[j_]))))
+        res, ty = els
+        for (cv, _), (tv, tt) in reversed(list(zip(conds, thens))):
+            c = as_kind(cv, "bool")
+            a, b, _k = unify(tv, res)
+            res = ite(z3.And(z3.Not(c.null), c.val), a, b)
+            if {tt, ty} == {"Integer", "Number"}:
+                ty = "Number"
+            elif ty == "Null":
+                ty = tt
+        return res, ty
 
     # ------------------------------------------------------------------ clauses
     def n_RegularAggregation(self, node):
